@@ -217,8 +217,8 @@ static void seq_step(const pkcfg *c, uint8_t *mem, size_t membytes, uint32_t *le
         int r = 0;
         f = GUARDED(r = c->delete_member(mem, *len, v));
         ret = r;
-        if (r) {
-            (*len)--;
+        if (r && *len > 0) {
+            (*len)--; /* a "deleted" report on an empty array is logged, the length stays 0 */
         }
     } else if (!strcmp(op, "Member")) {
         f = GUARDED(ret = c->member(mem, *len, v));
@@ -276,8 +276,13 @@ static unsigned long embed(unsigned long v, int bits, int mode) {
 }
 
 static void run_pwalk(const pkcfg *c, char *spec, int mode) {
-    uint8_t mem[256];
+    /* the array lives in its own mapping that ends at a PROT_NONE page: a
+     * sorted operation that runs away (a wrong length after a misreported
+     * delete, a shift past the capacity) faults inside GUARDED instead of
+     * trampling the driver's stack */
     size_t mb = seq_bytes(c);
+    gbuf gm = gb_alloc(mb);
+    uint8_t *mem = gm.p;
     fill(mem, mb, 2);
     uint32_t len = 0;
     ev_begin("PkNew");
@@ -293,12 +298,14 @@ static void run_pwalk(const pkcfg *c, char *spec, int mode) {
         int positional_op = !strcmp(op, "InsertAt") || !strcmp(op, "DeleteAt") || !strcmp(op, "Insert") || !strcmp(op, "Delete");
         seq_step(c, mem, mb, &len, op, 0, positional_op ? a : embed(a, c->bits, mode));
     }
+    gb_free(&gm);
 }
 
 static void positional(const pkcfg *c) {
     /* Insert(pos)/Delete(pos) on arbitrary (unsorted) arrays */
-    uint8_t mem[256];
     size_t mb = seq_bytes(c);
+    gbuf gm = gb_alloc(mb);
+    uint8_t *mem = gm.p;
     uint64_t ones = c->bits >= 32 ? 0xFFFFFFFFULL : ((1ULL << c->bits) - 1);
     for (int rep = 0; rep < 4; rep++) {
         fill(mem, mb, 2);
@@ -317,6 +324,7 @@ static void positional(const pkcfg *c) {
             }
         }
     }
+    gb_free(&gm);
 }
 
 int main(int argc, char **argv) {
